@@ -950,3 +950,5 @@ func Execute(t *testing.T, plan *Plan) (res *RunResult) {
 	})
 	return res
 }
+
+func isNotFound(err error) bool { return err != nil && status.Code(err) == codes.NotFound }
